@@ -8,6 +8,7 @@ git worktree of /repo (removed afterwards): apply the patch; build the default c
 suite (must pass); build the demo against the changed and against the unchanged library (must fail / pass); run the
 given checks with VERIF_REPO pointing at the scratch tree (each should exit 1 with a VIOLATION line). The outcome is
 stored as /verif/seeded/<id>-<k>/{patch.diff, demo.c, README.md, meta.json}."""
+import hashlib
 import json
 import os
 import shutil
@@ -124,7 +125,7 @@ def main():
         return finish(meta, name, patch, demo, readme)
     finally:
         sh("git -C /repo worktree remove --force %s; rm -rf %s; git -C /repo worktree prune" % (wt, wt))
-        sh("rm -rf %s/.build-alt" % V)
+        sh("rm -rf %s/.build-alt/%s" % (V, hashlib.sha1(os.path.realpath(wt).encode()).hexdigest()[:10]))
 
 
 def do_recheck(pid, k, checks, tier, extra):
@@ -152,7 +153,7 @@ def do_recheck(pid, k, checks, tier, extra):
             sh("rm -rf /tmp/vs_out_%s" % name)
     finally:
         sh("git -C /repo worktree remove --force %s; rm -rf %s; git -C /repo worktree prune" % (wt, wt))
-        sh("rm -rf %s/.build-alt" % V)
+        sh("rm -rf %s/.build-alt/%s" % (V, hashlib.sha1(os.path.realpath(wt).encode()).hexdigest()[:10]))
     meta.setdefault("rechecks", []).append(res)
     caught = set(meta.get("caught_by", [])) | {c for c, r in res.items() if r["exit"] == 1 and r["violations"] > 0}
     meta["caught_by"] = sorted(caught)
